@@ -585,7 +585,7 @@ def scenarios(rng, tier):
         for i in range(0, len(days), 400):
             yield {'kind': 'civil', 'list': days[i:i + 400]}
     yield from targeted(tier)
-    n = 10000 if tier == 'quick' else 200000
+    n = 7000 if tier == 'quick' else 200000
     for i in range(n):
         yield gen_spike(rng, tier) if i % 8 == 7 else gen_hook(rng, tier) if i % 8 == 3 else gen_circuit(rng, tier)
 
